@@ -666,3 +666,421 @@ Proof.
   - inversion H; subst. simpl in HC. inversion HC. apply Nat.eqb_eq in N. auto.
   - destruct (find_pos si _); inversion H; subst; discriminate.
 Qed.
+
+(* ------------------------------------------------------------------ flows proportional to the feed (full) *)
+
+Definition scale_strm (k : Q) (s : strm) : strm :=
+  mkstrm (map (Qmult k) (m_l s)) (map (Qmult k) (m_L s)) (m_o s) (tcT s) (tcP s).
+
+(* v' is k times v, entry by entry *)
+Definition F2 (k : Q) : vec -> vec -> Prop := Forall2 (fun x x' => x' == k * x).
+
+Definition srel (k : Q) (s s' : strm) : Prop :=
+  F2 k (m_l s) (m_l s') /\ F2 k (m_L s) (m_L s') /\ m_o s' = m_o s /\ tcT s' = tcT s /\ tcP s' = tcP s.
+
+Lemma F2_length k v v' : F2 k v v' -> length v' = length v.
+Proof. intros H. induction H; simpl; congruence. Qed.
+
+Lemma F2_nthq k v v' i : F2 k v v' -> nthq v' i == k * nthq v i.
+Proof.
+  intros H. revert i. induction H as [|x x' v v' Hx H IH]; intros i.
+  - rewrite !nthq_nil. ring.
+  - destruct i; unfold nthq in *; simpl; auto.
+Qed.
+
+Lemma F2_map k v : F2 k v (map (Qmult k) v).
+Proof. induction v; simpl; constructor; auto. reflexivity. Qed.
+
+Lemma F2_vadd k a b a' b' : F2 k a a' -> F2 k b b' -> F2 k (vadd a b) (vadd a' b').
+Proof.
+  intros Ha. revert b b'. induction Ha as [|x x' a a' Hx Ha IH]; intros b b' Hb; simpl.
+  - constructor.
+  - destruct Hb as [|y y' b b' Hy Hb]; simpl; constructor.
+    + rewrite Hx, Hy. ring.
+    + apply IH; assumption.
+Qed.
+
+Lemma F2_pick k v v' idx : F2 k v v' -> F2 k (pick v idx) (pick v' idx).
+Proof. intros H. induction idx; simpl; constructor; auto. apply F2_nthq; assumption. Qed.
+
+Lemma F2_qsum k v v' : F2 k v v' -> qsum v' == k * qsum v.
+Proof. intros H. induction H; simpl; [ring|]. rewrite H, IHForall2. ring. Qed.
+
+Lemma F2_zeros k v v' : F2 k v v' -> map (fun _ : Q => 0) v' = map (fun _ : Q => 0) v.
+Proof. intros H. induction H; simpl; congruence. Qed.
+
+Lemma F2_const (c : Q) k v v' : F2 k v v' -> map (fun _ : Q => c) v' = map (fun _ : Q => c) v.
+Proof. intros H. induction H; simpl; congruence. Qed.
+
+Lemma F2_zero_vec k v : F2 k (map (fun _ : Q => 0) v) (map (fun _ : Q => 0) v).
+Proof. induction v; simpl; constructor; auto. ring. Qed.
+
+Lemma F2_upd k v v' i x x' : F2 k v v' -> x' == k * x -> F2 k (upd v i x) (upd v' i x').
+Proof.
+  intros H Hx. revert i. induction H as [|y y' v v' Hy H IH]; intros i; simpl; [constructor|].
+  destruct i; constructor; auto. apply IH.
+Qed.
+
+Lemma F2_scatter k idx : forall b b' v v', F2 k b b' -> F2 k v v' -> F2 k (scatter b idx v) (scatter b' idx v').
+Proof.
+  induction idx as [|i idx IH]; intros b b' v v' Hb Hv; simpl; auto.
+  destruct Hv as [|x x' v v' Hx Hv]; auto.
+  apply IH; auto. apply F2_upd; auto.
+Qed.
+
+Lemma nonzerob_scale k x x' : ~ k == 0 -> x' == k * x -> nonzerob x' = nonzerob x.
+Proof.
+  intros K H. destruct (nonzerob x) eqn:E.
+  - apply nonzerob_true. apply nonzerob_true in E. intros Z. apply E. rewrite H in Z.
+    destruct (Qmult_integral _ _ Z); [contradiction|assumption].
+  - apply nonzerob_false. apply nonzerob_false in E. rewrite H, E. ring.
+Qed.
+
+Lemma filter_ext_in' {A} (f g : A -> bool) l : (forall x, f x = g x) -> filter f l = filter g l.
+Proof. intros H. induction l; simpl; auto. rewrite H, IHl. reflexivity. Qed.
+
+Lemma liquid_data_scale E k s sa index mol : ~ k == 0 ->
+  liquid_data E s = (sa, index, mol) ->
+  exists sa' mol', liquid_data E (scale_strm k s) = (sa', index, mol') /\ srel k sa sa' /\ F2 k mol mol'.
+Proof.
+  intros K H. unfold liquid_data in *. inversion H; subst sa index mol. clear H.
+  set (tot := vadd (m_l s) (m_L s)). simpl.
+  set (tot' := vadd (map (Qmult k) (m_l s)) (map (Qmult k) (m_L s))).
+  assert (T : F2 k tot tot') by (apply F2_vadd; apply F2_map).
+  assert (IX : filter (fun i => nonzerob (nthq tot' i)) (lle_index E) = filter (fun i => nonzerob (nthq tot i)) (lle_index E)).
+  { apply filter_ext_in'. intros i. apply (nonzerob_scale k); auto. apply F2_nthq; assumption. }
+  rewrite IX. eexists; eexists. split; [reflexivity|]. split.
+  - unfold srel; simpl. rewrite map_map. repeat split; auto. apply F2_zero_vec.
+  - apply F2_pick; assumption.
+Qed.
+
+Lemma z_scale k mol mol' : ~ k == 0 -> F2 k mol mol' -> ~ rsum mol == 0 ->
+  vr (vdivs mol' (rsum mol')) = vr (vdivs mol (rsum mol)).
+Proof.
+  intros K H S. assert (S' : rsum mol' == k * rsum mol).
+  { unfold rsum. rewrite !Qred_correct. apply F2_qsum; assumption. }
+  unfold vr, vdivs. generalize dependent (rsum mol'). generalize dependent (rsum mol). intros F S F' S'.
+  induction H; cbn [map]; auto. f_equal; auto. apply Qred_complete. rewrite H, S'. field. split; assumption.
+Qed.
+
+Lemma set_TP_scale k s a : set_TP (scale_strm k s) a = scale_strm k (set_TP s a).
+Proof. unfold set_TP, scale_strm. destruct (aupdate a); reflexivity. Qed.
+
+Lemma F2_vr_vscale k F F' v : F' == k * F -> F2 k (vr (vscale F v)) (vr (vscale F' v)).
+Proof.
+  intros H. unfold vr, vscale. induction v; cbn [map]; constructor; auto.
+  rewrite !Qred_correct. rewrite H. ring.
+Qed.
+
+Lemma finish_scale E k st sa sa' index F F' z a ml mL st' s' r :
+  srel k sa sa' -> F' == k * F ->
+  finish E st sa index F z a ml mL = (st', s', r) ->
+  exists s2, finish E st sa' index F' z a ml mL = (st', s2, r) /\ srel k s' s2.
+Proof.
+  intros (A & B & C & D & G) HF H. unfold finish in *.
+  destruct (swap_top E index (atop a) ml mL) as [l L].
+  destruct (stored_K_phi l L) as [K' phi'].
+  destruct (aupdate a); inversion H; subst; eexists; (split; [reflexivity|]).
+  - unfold srel, write_back; simpl. repeat split; auto; apply F2_scatter; auto; apply F2_vr_vscale; assumption.
+  - unfold srel; auto.
+Qed.
+
+Lemma nthq_zeros (v : vec) t : nthq (map (fun _ : Q => 0) v) t == 0.
+Proof. unfold nthq. revert t; induction v; intros [|t]; simpl; try reflexivity. apply IHv. Qed.
+
+Lemma qltb_zero_scale k z x x' : 0 < k -> z == 0 -> x' == k * x -> qltb z x' = qltb z x.
+Proof.
+  intros K Z H. destruct (qltb z x) eqn:E.
+  - apply qltb_true in E. apply qltb_true. rewrite H. nra.
+  - apply qltb_false in E. apply qltb_false. rewrite H. nra.
+Qed.
+
+Lemma tail_scale k (st : lle_st) sa sa' index mol mol' a st1 s1 t1 : 0 < k ->
+  srel k sa sa' -> F2 k mol mol' ->
+  (if negb (aupdate a) then
+    let mol_l := mol in
+    let mol_L := map (fun _ : Q => 0) mol in
+    let swap := match atop a with
+                | None => false
+                | Some j => match find_pos j index with
+                            | None => false
+                            | Some t => qltb (nthq mol_L t) (nthq mol_l t)
+                            end
+                end in
+    let mol_L' := if swap then mol_l else mol_L in
+    if nonzerob (qsum mol_L') then (st, sa, mktr false None (Ok (RTriple index (map (fun _ : Q => c_1e16) mol) 1)))
+    else (st, sa, mktr false None (Ok (RTriple index (map (fun _ : Q => 0) mol) 0)))
+  else (st, sa, mktr false None (Ok RNone))) = (st1, s1, t1) ->
+  exists s2,
+  (if negb (aupdate a) then
+    let mol_l := mol' in
+    let mol_L := map (fun _ : Q => 0) mol' in
+    let swap := match atop a with
+                | None => false
+                | Some j => match find_pos j index with
+                            | None => false
+                            | Some t => qltb (nthq mol_L t) (nthq mol_l t)
+                            end
+                end in
+    let mol_L' := if swap then mol_l else mol_L in
+    if nonzerob (qsum mol_L') then (st, sa', mktr false None (Ok (RTriple index (map (fun _ : Q => c_1e16) mol') 1)))
+    else (st, sa', mktr false None (Ok (RTriple index (map (fun _ : Q => 0) mol') 0)))
+  else (st, sa', mktr false None (Ok RNone))) = (st1, s2, t1) /\ srel k s1 s2.
+Proof.
+  intros K SR FM H. assert (K' : ~ k == 0) by lra.
+  destruct (negb (aupdate a)); [|inversion H; subst; eauto].
+  cbv zeta in *.
+  rewrite (F2_zeros k mol mol' FM), (F2_const c_1e16 k mol mol' FM).
+  assert (SW : forall t, qltb (nthq (map (fun _ : Q => 0) mol) t) (nthq mol' t)
+                       = qltb (nthq (map (fun _ : Q => 0) mol) t) (nthq mol t)).
+  { intros t. apply (qltb_zero_scale k); auto. apply nthq_zeros. apply F2_nthq; assumption. }
+  assert (QS : nonzerob (qsum mol') = nonzerob (qsum mol)).
+  { apply (nonzerob_scale k); auto. apply F2_qsum; assumption. }
+  destruct (atop a) as [j|].
+  - destruct (find_pos j index) as [t|].
+    + rewrite SW. destruct (qltb (nthq (map (fun _ : Q => 0) mol) t) (nthq mol t)).
+      * rewrite QS. destruct (nonzerob (qsum mol)); inversion H; subst; eauto.
+      * destruct (nonzerob (qsum (map (fun _ : Q => 0) mol))); inversion H; subst; eauto.
+    + destruct (nonzerob (qsum (map (fun _ : Q => 0) mol))); inversion H; subst; eauto.
+  - destruct (nonzerob (qsum (map (fun _ : Q => 0) mol))); inversion H; subst; eauto.
+Qed.
+
+Theorem lle_homogeneous_lemma : forall E o st s a k st1 s1 t1, 0 < k ->
+  lle_call E o st s a = (st1, s1, t1) ->
+  exists s2, lle_call E o st (scale_strm k s) a = (st1, s2, t1) /\ srel k s1 s2.
+Proof.
+  intros E o st s a k st1 s1 t1 K0 H.
+  assert (K : ~ k == 0) by lra.
+  unfold lle_call in *. rewrite set_TP_scale.
+  destruct (liquid_data E (set_TP s a)) as [[sa index] mol] eqn:LD.
+  destruct (liquid_data_scale E k _ _ _ _ K LD) as (sa' & mol' & LD' & SR & FM).
+  rewrite LD'. clear LD LD'.
+  assert (S' : rsum mol' == k * rsum mol).
+  { unfold rsum. rewrite !Qred_correct. apply F2_qsum; assumption. }
+  rewrite (nonzerob_scale k (rsum mol) (rsum mol') K S').
+  destruct (nonzerob (rsum mol)) eqn:NZ; simpl andb in *.
+  - destruct (Nat.ltb 1 (length index)) eqn:LI.
+    + apply nonzerob_true in NZ. rewrite (z_scale k mol mol' K FM NZ).
+      set (z := vr (vdivs mol (rsum mol))) in *.
+      destruct (use_cache_expr (ause_cache a) (chems_same (schems st) index) (aT a) (sT st) (tolT st) (sz st) z (tolz st)).
+      * destruct (sK st) as [Kv|]; [|inversion H; subst; eauto].
+        destruct (phase_fraction (o_rr o) z Kv) as [phi|e]; [|inversion H; subst; eauto].
+        destruct (cached_split (Qred phi) Kv z) as [[ml mL]|e]; [|inversion H; subst; eauto].
+        destruct (finish E (with_phi st (Some (Qred phi))) sa index (rsum mol) z a ml mL) as [[stf sf] rf] eqn:FN.
+        destruct (finish_scale E k _ _ _ _ _ _ _ _ _ _ _ _ _ SR S' FN) as (s2 & FN' & SR').
+        rewrite FN'. inversion H; subst. eauto.
+      * match type of H with context [finish ?e ?x ?y ?i ?f ?zz ?aa ?l ?L] =>
+          destruct (finish e x y i f zz aa l L) as [[stf sf] rf] eqn:FN end.
+        destruct (finish_scale E k _ _ _ _ _ _ _ _ _ _ _ _ _ SR S' FN) as (s2 & FN' & SR').
+        rewrite FN'. inversion H; subst. eauto.
+    + eapply tail_scale; eauto.
+  - eapply tail_scale; eauto.
+Qed.
+
+Corollary lle_homogeneous_pointwise : forall E o st s a k st1 s1 t1, 0 < k ->
+  lle_call E o st s a = (st1, s1, t1) ->
+  exists s2, lle_call E o st (scale_strm k s) a = (st1, s2, t1) /\
+    length (m_l s2) = length (m_l s1) /\ length (m_L s2) = length (m_L s1) /\
+    (forall i, nthq (m_l s2) i == k * nthq (m_l s1) i) /\
+    (forall i, nthq (m_L s2) i == k * nthq (m_L s1) i) /\
+    m_o s2 = m_o s1 /\ tcT s2 = tcT s1 /\ tcP s2 = tcP s1.
+Proof.
+  intros E o st s a k st1 s1 t1 K H.
+  destruct (lle_homogeneous_lemma E o st s a k st1 s1 t1 K H) as (s2 & H2 & (A & B & C & D & G)).
+  exists s2. split; [exact H2|].
+  split; [eapply F2_length; eauto|]. split; [eapply F2_length; eauto|].
+  split; [intros i; apply F2_nthq; assumption|]. split; [intros i; apply F2_nthq; assumption|]. auto.
+Qed.
+
+(* ------------------------------------------------------------------ equal activities for the repaired inner loop *)
+
+Lemma set_head_ok n a e w : set_head n a e = Ok w -> w = e ++ skipn n a /\ length e = Nat.min n (length a).
+Proof.
+  unfold set_head. destruct (Nat.eqb (length e) (Nat.min n (length a))) eqn:L; [|discriminate].
+  intros H; inversion H. apply Nat.eqb_eq in L. auto.
+Qed.
+
+Lemma nthq_firstn (l : vec) n i : (i < n)%nat -> nthq (firstn n l) i = nthq l i.
+Proof.
+  unfold nthq. revert l i; induction n as [|n IH]; intros l i H; [lia|].
+  destruct l; simpl; [destruct i; reflexivity|]. destruct i; auto. apply IH. lia.
+Qed.
+
+Lemma nthq_app_l (a b : vec) i : (i < length a)%nat -> nthq (a ++ b) i = nthq a i.
+Proof. unfold nthq. intros H. apply app_nth1. assumption. Qed.
+Lemma nthq_app_r (a b : vec) i : nthq (a ++ b) (length a + i) = nthq b i.
+Proof. unfold nthq. rewrite app_nth2 by lia. f_equal. lia. Qed.
+
+Lemma qsum_pw : forall a b, length a = length b ->
+  (forall i, (i < length a)%nat -> nthq a i == nthq b i) -> qsum a == qsum b.
+Proof.
+  induction a as [|x a IH]; intros [|y b] L H; simpl in *; try discriminate; [reflexivity|].
+  rewrite (IH b); [|lia|].
+  - specialize (H 0%nat ltac:(lia)). unfold nthq in H; simpl in H. rewrite H. reflexivity.
+  - intros i Hi. specialize (H (S i) ltac:(lia)). exact H.
+Qed.
+
+Lemma qsum_map_div (a : vec) s : qsum (map (fun e_ => e_ / s) a) == qsum a / s.
+Proof. induction a; simpl; [unfold Qdiv; ring|]. rewrite IHa. unfold Qdiv. ring. Qed.
+
+Lemma qsum_map2_sub (f g : Q -> Q -> Q) : forall l m,
+  qsum (map2 (fun a b => f a b - g a b) l m) == qsum (map2 f l m) - qsum (map2 g l m).
+Proof. induction l; intros [|y m]; simpl; try ring. rewrite IHl. ring. Qed.
+
+Lemma inner_loop_repaired_inv fexp fln gamma v z n phi w :
+  length v = (n + n)%nat ->
+  inner_loop_repaired fexp fln gamma v z n phi = Ok w ->
+  exists x y, loop_x fexp v z n phi = Ok x /\ loop_y fexp gamma v z n phi = Ok y /\
+    length (gamma x) = length (gamma y) /\ length (gamma y) = n /\
+    (forall i, (i < n)%nat -> ~ nthq (gamma y) i == 0) /\
+    w = map fln (map2 Qdiv (gamma x) (gamma y)) ++ gamma y.
+Proof.
+  intros Lv H. unfold inner_loop_repaired in H. binds H. inversion H; subst w. clear H.
+  match goal with E : set_tail _ _ _ = Ok ?y |- _ => apply set_tail_ok in E; subst y end.
+  match goal with E : set_head _ _ _ = Ok ?y |- _ => apply set_head_ok in E as (E & LH); subst y end.
+  match goal with E1 : vdivc z _ = Ok ?a, E2 : vdivsc ?a _ = Ok ?x, E3 : vdivc (gamma ?x) (skipn n v) = Ok ?k,
+                  E4 : vop2 Qmult ?k ?x = Ok ?yr, E5 : vdivsc ?yr _ = Ok ?y, E6 : vdivc (gamma ?x) (gamma ?y) = Ok ?k3 |- _ =>
+    exists x, y;
+    assert (LX : loop_x fexp v z n phi = Ok x) by (unfold loop_x, x_of; rewrite E1; cbn [bind]; exact E2);
+    split; [exact LX|]; split;
+    [ unfold loop_y; rewrite LX; cbn [bind]; rewrite E3; cbn [bind]; rewrite E4; cbn [bind]; exact E5 | ];
+    apply vdivc_ok in E6 as (L6 & K3 & NZ6); subst k3
+  end.
+  rewrite map_length, map2_length_min in LH.
+  match goal with |- length ?gx = length ?gy /\ _ => assert (LG : length gy = n) by lia end.
+  split; [assumption|]. split; [exact LG|]. split; [intros i Hi; apply NZ6; lia|].
+  rewrite firstn_app. rewrite map_length, map2_length_min.
+  match goal with |- context [(n - ?m)%nat] => replace (n - m)%nat with O by lia end.
+  simpl firstn at 2. rewrite app_nil_r. rewrite firstn_all2 by (rewrite map_length, map2_length_min; lia). reflexivity.
+Qed.
+
+Theorem repaired_fix_equal_activity_lemma : forall fexp fln gamma v z n phi w x y,
+  (forall q, 0 < q -> fexp (fln q) == q) ->
+  (forall a b, a == b -> fexp a == fexp b) ->
+  (forall i, (i < n)%nat -> 0 < nthq (gamma x) i) ->
+  (forall i, (i < n)%nat -> 0 < nthq (gamma y) i) ->
+  length z = n -> length v = (n + n)%nat ->
+  inner_loop_repaired fexp fln gamma v z n phi = Ok w -> veq w v ->
+  rr_residual z (map fexp (firstn n v)) phi == 0 ->
+  loop_x fexp v z n phi = Ok x -> loop_y fexp gamma v z n phi = Ok y ->
+  (forall i, (i < n)%nat -> nthq x i * nthq (gamma x) i == nthq y i * nthq (gamma y) i) /\
+  (forall i, (i < n)%nat -> fexp (nthq v i) == nthq (gamma x) i / nthq (gamma y) i).
+Proof.
+  intros fexp fln gamma v z n phi w x y EL EP GXP GYP Lz Lv HI [_ FIX] RR HX HY.
+  destruct (inner_loop_repaired_inv _ _ _ _ _ _ _ _ Lv HI) as (x' & y' & HX' & HY' & LGG & LGY & GYNZ & W).
+  rewrite HX in HX'. inversion HX'; subst x'. rewrite HY in HY'. inversion HY'; subst y'. clear HX' HY'.
+  set (K := map fexp (firstn n v)) in *.
+  assert (LK : length K = n) by (unfold K; rewrite map_length, firstn_length; lia).
+  (* unfold the two compositions *)
+  unfold loop_x, x_of in HX. fold K in HX. binds HX.
+  match goal with E : vdivc z _ = Ok ?a |- _ => apply vdivc_ok in E as (LD & XR & DNZ); rename a into xr end.
+  apply vdivsc_ok in HX as (Xe & SXNZ).
+  rewrite !map_length in LD, DNZ.
+  assert (Lxr : length xr = n).
+  { subst xr. rewrite map2_length_min, !map_length. lia. }
+  assert (Lx : length x = n) by (subst x; rewrite map_length; exact Lxr).
+  unfold loop_y in HY. unfold loop_x, x_of in HY. fold K in HY.
+  assert (HX2 : vdivc z (map (fun e_ => 1 + e_) (map (fun e_ => phi * e_) (map (fun e_ => e_ - 1) K))) = Ok xr).
+  { subst xr. unfold vdivc. rewrite !map_length. replace (Nat.eqb (length z) (length K)) with true by (symmetry; apply Nat.eqb_eq; lia).
+    simpl negb. cbv iota.
+    destruct (existsb qzerob (map (fun e_ => 1 + e_) (map (fun e_ => phi * e_) (map (fun e_ => e_ - 1) K)))) eqn:EX; [|reflexivity].
+    exfalso. apply existsb_exists in EX as (d & IN & Z). apply In_nth with (d := 0) in IN as (i & Hi & Ei).
+    rewrite !map_length in Hi. apply (DNZ i Hi). unfold nthq. rewrite Ei. apply qzerob_true; assumption. }
+  rewrite HX2 in HY. cbn [bind] in HY.
+  assert (HX3 : vdivsc xr (qsum xr) = Ok x).
+  { subst x. unfold vdivsc. destruct (qzerob (qsum xr)) eqn:Z; [|reflexivity].
+    destruct xr; [reflexivity|]. exfalso. apply qzerob_true in Z. apply SXNZ; [discriminate|exact Z]. }
+  rewrite HX3 in HY. cbn [bind] in HY. binds HY.
+  match goal with E : vdivc (gamma x) _ = Ok ?k |- _ => apply vdivc_ok in E as (L1 & K2 & GNZ); subst k end.
+  match goal with E : vop2 Qmult _ x = Ok ?yr |- _ => apply vop2_ok in E as (L2 & YR); subst yr end.
+  apply vdivsc_ok in HY as (Ye & SYNZ).
+  set (yr := map2 Qmult (map2 Qdiv (gamma x) (skipn n v)) x) in *.
+  assert (Lsk : length (skipn n v) = n) by (rewrite skipn_length; lia).
+  assert (LGX : length (gamma x) = n) by lia.
+  assert (Lyr : length yr = n) by (unfold yr; rewrite !map2_length_min, LGX; lia).
+  assert (Ly : length y = n) by (subst y; rewrite map_length; exact Lyr).
+  (* pointwise facts *)
+  assert (Ki : forall i, (i < n)%nat -> nthq K i = fexp (nthq v i)).
+  { intros i Hi. unfold K. rewrite nthq_map_default by (rewrite firstn_length; lia). rewrite nthq_firstn by lia. reflexivity. }
+  assert (Di : forall i, (i < n)%nat -> ~ 1 + phi * (nthq K i - 1) == 0).
+  { intros i Hi. specialize (DNZ i ltac:(lia)).
+    rewrite nthq_map_default in DNZ by (rewrite !map_length; lia).
+    rewrite nthq_map_default in DNZ by (rewrite !map_length; lia).
+    rewrite nthq_map_default in DNZ by lia. exact DNZ. }
+  assert (XRi : forall i, (i < n)%nat -> nthq xr i == nthq z i / (1 + phi * (nthq K i - 1))).
+  { intros i Hi. subst xr. rewrite nthq_map2 by (rewrite ?map_length; lia).
+    rewrite nthq_map_default by (rewrite !map_length; lia).
+    rewrite nthq_map_default by (rewrite !map_length; lia).
+    rewrite nthq_map_default by lia. reflexivity. }
+  assert (Xi : forall i, (i < n)%nat -> nthq x i == nthq xr i / qsum xr).
+  { intros i Hi. subst x. rewrite nthq_map_default by lia. reflexivity. }
+  (* the fixed point *)
+  assert (GY : forall i, (i < n)%nat -> nthq (skipn n v) i == nthq (gamma y) i).
+  { intros i Hi. rewrite nthq_skipn. rewrite <- (FIX (n + i)%nat). rewrite W.
+    replace n with (length (map fln (map2 Qdiv (gamma x) (gamma y)))) at 1
+      by (rewrite map_length, map2_length_min; lia).
+    rewrite nthq_app_r. reflexivity. }
+  assert (KE : forall i, (i < n)%nat -> nthq K i == nthq (gamma x) i / nthq (gamma y) i).
+  { intros i Hi. rewrite Ki by assumption.
+    assert (F1 : fln (nthq (gamma x) i / nthq (gamma y) i) == nthq v i).
+    { rewrite <- (FIX i). rewrite W. rewrite nthq_app_l by (rewrite map_length, map2_length_min; lia).
+      rewrite nthq_map_default by (rewrite map2_length_min; lia). rewrite nthq_map2 by lia. reflexivity. }
+    rewrite <- (EP _ _ F1). apply EL.
+    specialize (GXP i Hi). specialize (GYP i Hi).
+    apply Qlt_shift_div_l; [assumption|]. lra. }
+  (* sums *)
+  set (A := map2 (fun zi k => k * (zi / (1 + phi * (k - 1)))) z K).
+  set (B := map2 (fun zi k => zi / (1 + phi * (k - 1))) z K).
+  assert (LA : length A = n) by (unfold A; rewrite map2_length_min; lia).
+  assert (LB : length B = n) by (unfold B; rewrite map2_length_min; lia).
+  assert (SB : qsum xr == qsum B).
+  { apply qsum_pw; [lia|]. intros i Hi. rewrite XRi by lia. unfold B. rewrite nthq_map2 by lia. reflexivity. }
+  assert (SAB : qsum A == qsum B).
+  { assert (R2 : rr_residual z K phi == qsum A - qsum B).
+    { unfold rr_residual, A, B. rewrite <- qsum_map2_sub. apply qsum_pw; [rewrite !map2_length_min; lia|].
+      intros i Hi. rewrite map2_length_min in Hi. rewrite !nthq_map2 by lia. field. apply Di. lia. }
+    rewrite R2 in RR. lra. }
+  assert (n0 : forall i, (i < n)%nat -> xr <> []) by (intros i Hi Z; rewrite Z in Lxr; simpl in Lxr; lia).
+  assert (SY : forall i, (i < n)%nat -> qsum yr == 1).
+  { intros i0 Hi0. assert (SX0 : ~ qsum xr == 0) by (apply SXNZ; eapply n0; eauto).
+    assert (P : qsum yr == qsum (map (fun e_ => e_ / qsum xr) A)).
+    { apply qsum_pw; [rewrite map_length; lia|]. intros i Hi. rewrite Lyr in Hi.
+      unfold yr. rewrite nthq_map2 by (rewrite ?map2_length_min, ?LGX; lia). rewrite nthq_map2 by (rewrite ?LGX; lia).
+      rewrite nthq_map_default by lia. unfold A. rewrite nthq_map2 by lia.
+      rewrite (GY i Hi). rewrite <- (KE i Hi). rewrite (Xi i Hi), (XRi i Hi). field. split; [apply Di; assumption|assumption]. }
+    rewrite P, qsum_map_div, SAB, <- SB. field. assumption. }
+  split.
+  - intros i Hi. specialize (SY i Hi).
+    assert (S0 : ~ qsum yr == 0) by lra.
+    assert (G0 : ~ nthq (skipn n v) i == 0) by (apply GNZ; lia).
+    assert (Yi : nthq y i == nthq (gamma x) i / nthq (skipn n v) i * nthq x i / qsum yr).
+    { subst y. rewrite nthq_map_default by lia. unfold yr.
+      rewrite nthq_map2 by (rewrite ?map2_length_min, ?LGX; lia).
+      rewrite nthq_map2 by (rewrite ?LGX; lia). reflexivity. }
+    rewrite Yi, SY. rewrite <- (GY i Hi). field. assumption.
+  - intros i Hi. rewrite <- Ki by assumption. apply KE; assumption.
+Qed.
+
+(* a non-trivial exact fixed point of the repaired loop: z = (1/2,1/2), K = (3,1/3), phi = 1/2, gamma(w) = (4 w2, 4 w1) *)
+Definition vR : vec := [2; -(2 # 3); 1; 3].
+Definition zR : vec := [1 # 2; 1 # 2].
+Definition wR := getv (inner_loop_repaired fexpW flnW gammaW vR zR 2 (1 # 2)).
+Definition xR := getv (loop_x fexpW vR zR 2 (1 # 2)).
+Definition yR := getv (loop_y fexpW gammaW vR zR 2 (1 # 2)).
+Lemma repaired_witness_facts :
+  inner_loop_repaired fexpW flnW gammaW vR zR 2 (1 # 2) = Ok wR /\ veq wR vR /\
+  rr_residual zR (map fexpW (firstn 2 vR)) (1 # 2) == 0 /\
+  loop_x fexpW vR zR 2 (1 # 2) = Ok xR /\ loop_y fexpW gammaW vR zR 2 (1 # 2) = Ok yR /\
+  (forall i, (i < 2)%nat -> 0 < nthq (gammaW xR) i) /\ (forall i, (i < 2)%nat -> 0 < nthq (gammaW yR) i) /\
+  ~ nthq xR 0 == nthq yR 0.
+Proof.
+  split. { vm_compute. reflexivity. }
+  split. { split; [vm_compute; reflexivity|]. intros i.
+           do 4 (destruct i as [|i]; [vm_compute; reflexivity|]). vm_compute. destruct i; reflexivity. }
+  split. { vm_compute. reflexivity. }
+  split. { vm_compute. reflexivity. }
+  split. { vm_compute. reflexivity. }
+  split. { intros i Hi. destruct i as [|[|i]]; [vm_compute; reflexivity|vm_compute; reflexivity|lia]. }
+  split. { intros i Hi. destruct i as [|[|i]]; [vm_compute; reflexivity|vm_compute; reflexivity|lia]. }
+  vm_compute. discriminate.
+Qed.
